@@ -1096,7 +1096,10 @@ impl WalSegment {
         self.offset += (WAL_FRAME_HEADER_SIZE + PAGE_SIZE) as u64;
 
         #[cfg(kahflane_turdb_verif)]
-        crate::verif::point("wal.frame_written", &[{ header.page_no } as i64, sync as i64]);
+        crate::verif::point(
+            "wal.frame_written",
+            &[{ header.page_no } as i64, sync as i64, { header.file_id } as i64],
+        );
 
         Ok(())
     }
